@@ -104,7 +104,7 @@ void harness_inv(void)
 	if (lz_exchanges >= 2) WITNESS("two node exchanges in one update");
 	if (lz_exchanges == 0) WITNESS("update without exchange");
 #endif
-#if PARTS & 4
+#if PARTS & (4 | 16)
 	if (dec.num_groups == NUM_TREE_NODES) WITNESS("all counts distinct afterwards");
 #endif
 	WITNESS("end");
